@@ -69,6 +69,23 @@ def byte_name(i):
     return (i * 37 + 11) % 251
 
 
+def peer_read(peer, k, timeout=5.0):
+    """What the peer receives: up to k bytes (it stops when nothing more arrives)."""
+    out = b''
+    peer.settimeout(timeout)
+    try:
+        while len(out) < k:
+            b = peer.recv(min(1 << 20, k - len(out)))
+            if not b:
+                break
+            out += b
+    except (socket.timeout, OSError):
+        pass
+    finally:
+        peer.settimeout(None)
+    return out
+
+
 def drive_sync(script, timeout_s=0.05):
     from adb_shell.transport.tcp_transport import TcpTransport
     from adb_shell.exceptions import TcpTimeoutException
@@ -97,6 +114,17 @@ def drive_sync(script, timeout_s=0.05):
                     L.peer.sendall(data)
                     written += a['m']
                     select.select([t._connection], [], [], 1.0)      # until readable on the host side
+                elif op == 'hw':
+                    data = bytes((i * 7 + a['n']) % 251 for i in range(a['n']))
+                    k = t.bulk_write(data, None if a.get('tmo') == 'none' else timeout_s)
+                    got = peer_read(L.peer, k if isinstance(k, int) and 0 < k <= len(data) else 0)
+                    tr.append(dict(op='hw', n=len(data), k=k if isinstance(k, int) else -1, prefixOk=(got == data[:len(got)] and len(got) == k)))
+                elif op == 'oob':
+                    L.peer.send(b'!', socket.MSG_OOB)      # urgent data: not part of the byte stream
+                    time.sleep(0.01)
+                    tr.append(dict(op='oob'))
+                elif op == 'cread':
+                    pass                                    # cancelling a read is an asyncio matter
                 elif op in ('read', 'timeout'):
                     t0 = time.time()
                     try:
@@ -150,6 +178,28 @@ def drive_async(script, timeout_s=0.05):
                         L.peer.sendall(data)
                         written += a['m']
                         await asyncio.sleep(0.01)
+                    elif op == 'hw':
+                        data = bytes((i * 7 + a['n']) % 251 for i in range(a['n']))
+                        rd = asyncio.get_running_loop().run_in_executor(None, peer_read, L.peer, len(data))      # the peer drains while the host writes
+                        k = await t.bulk_write(data, None if a.get('tmo') == 'none' else max(timeout_s, 5.0))
+                        got = await rd
+                        tr.append(dict(op='hw', n=len(data), k=k if isinstance(k, int) else -1, prefixOk=(got == data[:len(got)] and len(got) == k)))
+                    elif op == 'oob':
+                        L.peer.send(b'!', socket.MSG_OOB)
+                        await asyncio.sleep(0.01)
+                        tr.append(dict(op='oob'))
+                    elif op == 'cread':
+                        if written == delivered:
+                            # a read that is waiting for data is abandoned (its task is cancelled): it consumes nothing, now or later
+                            task = asyncio.ensure_future(t.bulk_read(a['n'], 5.0))
+                            await asyncio.sleep(0.02)
+                            task.cancel()
+                            try:
+                                await task
+                                tr.append(dict(op='error', clause='Raises', what='a cancelled bulk_read returned normally'))
+                                break
+                            except asyncio.CancelledError:
+                                tr.append(dict(op='cread'))
                     elif op in ('read', 'timeout'):
                         t0 = time.time()
                         try:
@@ -271,8 +321,14 @@ def body(ctx, prefix='C18'):
             c = rng.random()
             if c < 0.45:
                 sc.append(dict(op='pw', m=rng.choice([1, 2, 7, 100, 5000])))
-            elif c < 0.9:
+            elif c < 0.8:
                 sc.append(dict(op='read', n=rng.choice([1, 3, 24, 4096, 65536]), poll=rng.random() < 0.3))
+            elif c < 0.84:
+                sc.append(dict(op='hw', n=rng.choice([1, 24, 70000, 4 * 1024 * 1024]), tmo=rng.choice(['none', 't'])))     # also: connected with a timeout, written without one
+            elif c < 0.87:
+                sc.append(dict(op='oob'))
+            elif c < 0.9:
+                sc.append(dict(op='cread', n=rng.choice([1, 24, 4096])))
             elif c < 0.95:
                 sc.append(dict(op='close'))
                 sc.append(dict(op='connect'))
@@ -283,6 +339,13 @@ def body(ctx, prefix='C18'):
         mode, drv = (('sync', drive_sync), ('async', drive_async))[j % 2]
         traces.append(drv(sc))
         meta.append(dict(kind='random-script', mode=mode, script=sc))
+    # connected with a timeout (a non-blocking socket), then written to with and without one: small, and more than the socket buffers hold
+    for mode, drv in (('sync', drive_sync), ('async', drive_async)):
+        for tmo in ('none', 't'):
+            sc = [dict(op='connect'), dict(op='hw', n=24, tmo=tmo), dict(op='hw', n=4 * 1024 * 1024, tmo=tmo), dict(op='pw', m=5), dict(op='read', n=5), dict(op='oob'), dict(op='read', n=3),
+                  dict(op='cread', n=24), dict(op='pw', m=8), dict(op='read', n=8), dict(op='hw', n=70000, tmo=tmo), dict(op='close'), dict(op='connect'), dict(op='hw', n=1, tmo=tmo)]
+            traces.append(drv(sc))
+            meta.append(dict(kind='write / urgent data / cancelled read script', mode=mode, script=sc))
     ver, r = tlc.validate_traces('TraceTransport', traces, extra_data={'prefix': prefix})
     ctx.add_tlc(r, 'TraceTransport over %d driver scripts on loopback' % len(traces))
     okn = 0
